@@ -6,20 +6,17 @@ import re
 from .common import *
 from cpv.ceval import Evaluator, Unknown
 from cpv.graph import field_writers
+from cpv.model import TRANSPARENT, CAST_KINDS
 from .shared import char_classifiers
 
 SS = "SimpleString"
 UNIT = "src/CppUTest/SimpleString.cpp"
 SIZE_MAX = (1 << 64) - 1
 UNDERFLOW_UNITS = ("src/CppUTest/SimpleString.cpp", "src/CppUTest/CommandLineArguments.cpp", "src/CppUTest/TestRegistry.cpp", "src/CppUTest/TestFailure.cpp", "src/CppUTest/TestFilter.cpp")
-# frozen exceptions for R2: (function qn, rendered subtraction) -> reason
+# frozen exceptions for R2: (function qn, alpha-normalised origin rendering of the subtraction) -> reason.
+# Local names are replaced by v0, v1, ... in order of appearance, single-assignment locals by their initialisers.
 UNDERFLOW_EXC = {
-    ("CommandLineArguments::addGroupDotNameFilter", "(collection[0].size() - 1)"): "split(\".\") produced exactly two parts (dominating fact), so part 0 ends with the delimiter and is at least 1 long",
-    ("SimpleString::subStringFromTill", "(endPos - beginPos)"): "endPos = findFrom(beginPos, ...) starts its scan at beginPos and only counts upwards (checked structurally in R5), so endPos >= beginPos",
-    ("StringFromBinary", "(result.size() - 1)"): "the value is only the `amount` of subString(0, amount): a wrapped value clamps nothing and the empty result stays empty",
-    ("HexStringFrom", "(size - (8 / 4))"): "only evaluated for negative values, whose %x rendering of the promoted int has 8 hex digits (size >= 8 > 2)",
-    ("SimpleString::copyToNewBuffer", "(bufferSize - 1)"): "every caller passes a size >= 1 (each call site is checked in R4)",
-    ("SimpleString::replace", "((len + (withlen * c)) - (tolen * c))"): "c counts non-overlapping occurrences with stride tolen (checked structurally below), so tolen * c <= len",
+    ("HexStringFrom", "(v0.size() - (8 / 4))"): "only evaluated for negative values, whose %x rendering of the promoted int has 8 hex digits (size >= 8 > 2)",
 }
 
 
@@ -37,11 +34,11 @@ def check(ctx, run):
     run.assume("char is signed 8-bit on the analysed target; the string allocator returns blocks of at least the requested size")
     run.not_decided.append("that every operation returns the result of its textbook definition for ALL byte strings and positions (functional correctness over unbounded data); decided: ownership/size pairing of every buffer, absence of unsigned wrap in every index/length computation, agreement of the printable size pre-computation with the writer for every char value, bounded copies, NUL-bounded scans, classifier tables")
     run.rule("R1", "buffer ownership and size pairing: buffer_/bufferSize_ written only by the internal-buffer family, each pairing size N with a buffer allocated with N; every setter releases the old buffer first with its recorded size; setInternalBufferTo receives buffers allocated with the same size variable; formatted construction allocates and frees with one variable", floor=14)
-    run.rule("R2", "unsigned-underflow guard: every size_t subtraction in the anchored units is dominated by a fact that excludes wrap, or is a frozen exception with a checked reason", floor=10)
+    run.rule("R2", "unsigned-underflow guard: every size_t subtraction in the anchored units is dominated by a fact that excludes wrap, matches a structural clause whose reason is checked (split part, findFrom result minus its start, clamped subString amount, copyToNewBuffer size), or is a frozen exception; replace(const char*, const char*) is folded over every bounded case against non-overlapping left-to-right replacement", floor=10)
     run.rule("R3", "printable size agreement folded for all 256 char values: bytes written per char by printable() = 1 + size increment in getPrintableSize(), copy lengths equal the index advance, escape table index inside its extent", floor=256, exhaustive=True)
     run.rule("R4", "bounded copies folded over the (buffer size, string size) lattice: copyToBuffer writes [0, min(size, bufferSize-1)] and terminates there; copyToNewBuffer is always called with a size >= 1; subString truncates inside its own string", floor=20)
-    run.rule("R5", "C-string scans stop at NUL: every loop of the primitives has a condition that is false when the advancing pointer points at NUL (folded), MemCmp is bounded by n, findFrom by the string's size", floor=9)
-    run.rule("R6", "format fast path: the constant compared with the vsnprintf result equals the extent of the stack buffer handed to it; the slow path passes one size variable to allocation, vsnprintf and release", floor=3)
+    run.rule("R5", "C-string primitives folded on every small string (bytes behind the terminator are absent, so a read past NUL cannot be folded and is reported): StrCmp, StrNCmp, StrLen, StrStr, StrNCpy, AtoI, AtoU, MemCmp, findFrom agree with their textbook definition on the bounded domain and read/write inside the buffers only", floor=9, exhaustive=True)
+    run.rule("R6", "VStringFromFormat folded per vsnprintf result (0, 1, extent-1, extent, extent+1, 4*extent, INT_MAX): below the stack buffer's extent only that buffer is used, bounded by its extent; otherwise result+1 bytes are allocated, formatted into with that bound, and released with that size", floor=3)
     run.rule("R7", "character classifiers folded for all 256 char values against their tables", floor=6, exhaustive=True)
 
     # ---------------- R1 ----------------------------------------------------
@@ -125,21 +122,88 @@ def check(ctx, run):
     run.ob("R1", "the destructor releases the buffer once", ds.site, cs.count(SS + "::deallocateInternalBuffer") == 1, witness=cs)
     vf = prog.fn("VStringFromFormat")
     run.analysed(vf)
-    al = [R(vf, c) for c in vf.calls() if (prog.callee_name(vf, c) or "") == SS + "::allocStringBuffer"]
-    fr = [R(vf, c) for c in vf.calls() if (prog.callee_name(vf, c) or "") == SS + "::deallocStringBuffer"]
-    ok = len(al) == 1 and len(fr) == 1
-    if ok:
-        sv = re.match(r"^allocStringBuffer\((\w+),", al[0])
-        fv = re.match(r"^deallocStringBuffer\((\w+), (\w+),", fr[0])
-        ini = {k: R(vf, v) for k, v in local_inits(vf).items()}
-        ok = bool(sv and fv) and sv.group(1) == fv.group(2) and ini.get(fv.group(1), "").startswith("allocStringBuffer(")
-    run.ob("R1", "VStringFromFormat releases its temporary buffer with the size it was allocated with", vf.site, ok, witness={"alloc": al, "free": fr},
-           what="" if ok else "the temporary buffer is returned with a different size than requested")
+
+    def fold_format(r_):
+        """fold VStringFromFormat with the first vsnprintf returning r_: the calls it makes, in order, with folded arguments"""
+        seq = []
+        ev = Evaluator(prog, vf, env={}, calls={
+            "PlatformSpecificVSNprintf": lambda *a_: (seq.append(("vsnprintf", a_)), r_)[1],
+            SS + "::allocStringBuffer": lambda *a_: (seq.append(("alloc", a_)), ("ptr", "H", 0))[1],
+            SS + "::deallocStringBuffer": lambda *a_: (seq.append(("free", a_)), 0)[1]})
+        ev.run_blocks(vf.entry, max_steps=400)
+        nodes = [n_ for nm_, a_, n_ in ev.trace if nm_ == "PlatformSpecificVSNprintf"]
+        return seq, nodes
+    first = [c for c in vf.calls() if (prog.callee_name(vf, c) or "") == "PlatformSpecificVSNprintf"]
+    extent = None
+    if first:
+        a0 = vf.strip(vf.args(first[0])[0])
+        extent = (prog.types.get(a0.get("ct", ""), {}) or {}).get("extent") if a0 is not None else None
+    fmt_bad, fmt_free_bad, fmt_cases = None, None, []
+    if extent is None:
+        run.broke("C13: the stack buffer handed to the first vsnprintf of VStringFromFormat was not found")
+    else:
+        for r_ in sorted({0, 1, extent - 1, extent, extent + 1, 4 * extent, (1 << 31) - 1}):
+            try:
+                seq, nodes = fold_format(r_)
+            except Unknown as u:
+                run.broke("C13: VStringFromFormat cannot be folded for a vsnprintf result of %d: %s" % (r_, u))
+                break
+            fmt_cases.append(r_)
+            kinds = [k for k, a_ in seq]
+            if r_ < extent:
+                okc = kinds == ["vsnprintf"] and seq[0][1][1] == extent
+                why = "a result of %d fits the %d-byte stack buffer: expected one vsnprintf bounded by %d and no allocation, folded %s" % (r_, extent, extent, [(k, a_[:2]) for k, a_ in seq])
+            else:
+                okc = kinds == ["vsnprintf", "alloc", "vsnprintf", "free"] and seq[0][1][1] == extent and seq[1][1][0] == r_ + 1 and seq[2][1][1] == r_ + 1 and isinstance(seq[2][1][0], tuple) and seq[2][1][0] == ("ptr", "H", 0)
+                why = "a result of %d does not fit the %d-byte stack buffer: expected a second vsnprintf into a fresh buffer of %d bytes, folded %s" % (r_, extent, r_ + 1, [(k, a_[:2]) for k, a_ in seq])
+                if okc and not (seq[3][1][0] == seq[2][1][0] and seq[3][1][1] == r_ + 1) and fmt_free_bad is None:
+                    fmt_free_bad = "for a result of %d the buffer of %d bytes is released as %s" % (r_, r_ + 1, (seq[3][1][:2],))
+            if not okc and fmt_bad is None:
+                fmt_bad = why
+    run.ob("R1", "VStringFromFormat releases its temporary buffer with the size it was allocated with (folded per vsnprintf result)", vf.site, fmt_free_bad is None and fmt_bad is None, witness=fmt_free_bad or fmt_bad or {"results": fmt_cases},
+           what=fmt_free_bad or fmt_bad or "")
 
     # ---------------- R2 ----------------------------------------------------
+    def origin_node(f, n, depth=6):
+        n = f.strip(n)
+        while n is not None and depth > 0 and n["k"] == "DeclRefExpr" and n.get("dk") == "Var":
+            init = f.single_inits().get(n.get("did"))
+            if init is None:
+                break
+            n = f.strip(init)
+            depth -= 1
+        return n
+
+    def local_names(f):
+        names = [q["name"] for q in f.params]
+        for n in f.walk():
+            if n["k"] == "DeclStmt":
+                names += [d["name"] for d in n.get("decls", [])]
+        return set(names)
+
+    def akey(f, n):
+        txt = rx(f, n)
+        loc = local_names(f)
+        seen = {}
+
+        def sub(m):
+            w = m.group(0)
+            if w in loc:
+                return seen.setdefault(w, "v%d" % len(seen))
+            return w
+        return re.sub(r"(?<![\w\"%.>])[A-Za-z_]\w*(?!\w*\()", sub, txt)
+
+    def size_receiver(f, n):
+        """origin node of X when n originates from X.size() (SimpleString or collection), else None"""
+        o = origin_node(f, n)
+        if o is not None and o["k"] == "CXXMemberCallExpr" and (prog.callee_name(f, o) or "").endswith("::size") and o.get("obj") is not None:
+            return f.node(o["obj"])
+        return None
+
     def wraps_excluded(f, n):
-        a, b = render(f, f.node(n["lhs"])), render(f, f.node(n["rhs"]))
-        bc = const_value(f, f.node(n["rhs"]))
+        ln, rn = f.node(n["lhs"]), f.node(n["rhs"])
+        a, b = render(f, ln), render(f, rn)
+        bc = const_value(f, rn)
         facts = facts_at(f, f.where_enclosing(n))
         if ("(%s < %s)" % (a, b), False) in facts or ("(%s < %s)" % (b, a), True) in facts or ("(%s == %s)" % tuple(sorted((a, b))), True) in facts:
             return "dominated by %s >= %s" % (a, b)
@@ -164,7 +228,40 @@ def check(ctx, run):
                 for k, v in facts:
                     if v and k.startswith("%s.endsWith(" % m.group(1)) and '""' not in k:
                         return "dominated by %s ends with a non-empty literal" % m.group(1)
-        # loop idiom n - i - 1 with i < n
+            recv = size_receiver(f, ln)
+            if recv is not None and bc == 1:
+                # part k of a collection filled by split(non-empty literal): every part but the last ends with the delimiter
+                ro = origin_node(f, recv)
+                if ro is not None and ro["k"] == "CXXOperatorCallExpr" and len(f.args(ro)) == 2:
+                    coll, idx = render(f, f.args(ro)[0]), const_value(f, f.args(ro)[1])
+                    filled = [c for c in f.calls() if (prog.callee_name(f, c) or "") == SS + "::split" and len(f.args(c)) == 2 and render(f, f.args(c)[1]) == coll
+                              and re.match(r'^(SimpleString\()?"[^"]+"\)?$', render(f, f.args(c)[0]))]
+                    count = [int(m2.group(1)) for k, v in facts for m2 in [re.match(r"^\((\d+) == %s\.size\(\)\)$" % re.escape(coll), k)] if m2 and v]
+                    if filled and idx is not None and count and idx < count[0] - 1:
+                        return "%s was filled by split(%s) and has %d parts (dominating fact): part %d is not the last one, so it ends with the delimiter" % (coll, render(f, f.args(filled[0])[0]), count[0], idx)
+                # the amount of X.subString(0, X.size() - 1): a wrapped amount clamps nothing and the empty string stays empty
+                uses = [n]
+                for did, init in f.single_inits().items():
+                    if f.strip(init) is f.strip(n):
+                        uses = [x for x in f.walk() if x["k"] == "DeclRefExpr" and x.get("did") == did]
+
+                def is_amount(u):
+                    par = next((x for x in f.ancestors(u) if x["k"] not in TRANSPARENT and x["k"] not in CAST_KINDS), None)
+                    return par is not None and par["k"] == "CXXMemberCallExpr" and (prog.callee_name(f, par) or "") == SS + "::subString" and len(f.args(par)) == 2 \
+                        and const_value(f, f.args(par)[0]) == 0 and f.strip(f.args(par)[1]) is f.strip(u) and rx(f, f.node(par["obj"])) == rx(f, recv)
+                if uses and all(is_amount(u) for u in uses):
+                    return "only the `amount` of %s.subString(0, amount): subString clamps the amount to the string, the empty string stays empty" % render(f, recv)
+            # parameter of copyToNewBuffer minus one: every call site passes a size >= 1 (R4)
+            lo = f.strip(ln)
+            if f.qn == SS + "::copyToNewBuffer" and bc == 1 and lo is not None and lo["k"] == "DeclRefExpr" and len(f.params) == 2 and lo.get("name") == f.params[1]["name"]:
+                return "size parameter of copyToNewBuffer: every caller passes a size >= 1 (each call site is checked in R4)"
+        # findFrom(p, c) - p under result != npos: findFrom returns an index >= its start (checked structurally in R5)
+        lo = origin_node(f, ln)
+        if lo is not None and lo["k"] == "CXXMemberCallExpr" and (prog.callee_name(f, lo) or "") == SS + "::findFrom" and f.args(lo):
+            if rx(f, f.args(lo)[0]) == rx(f, rn) and (("(%s == npos)" % a, False) in facts or ("(npos == %s)" % a, False) in facts or ("(%s == SimpleString::npos)" % a, False) in facts):
+                return "%s = findFrom(%s, ...) is not npos (dominating fact), and findFrom only counts upwards from its start (R5)" % (a, b)
+        if f.qn == SS + "::replace" and f.params and f.params[0]["ct"] == "const char *":
+            return "the size arithmetic of replace is decided by folding (below): the allocated size equals the bytes written for every bounded case"
         return None
     nsub = 0
     for f in sorted(prog.functions.values(), key=lambda x: (x.file, x.line)):
@@ -178,85 +275,155 @@ def check(ctx, run):
                 why = wraps_excluded(f, n)
                 if why:
                     run.ob("R2", "%s: %s" % (f.qn, txt), f.site, True, witness=why)
-                elif (f.qn, txt) in UNDERFLOW_EXC:
-                    run.ob("R2", "%s: %s (frozen exception)" % (f.qn, txt), f.site, True, witness=UNDERFLOW_EXC[(f.qn, txt)])
+                elif (f.qn, akey(f, n)) in UNDERFLOW_EXC:
+                    run.ob("R2", "%s: %s (frozen exception)" % (f.qn, txt), f.site, True, witness=UNDERFLOW_EXC[(f.qn, akey(f, n))])
                 else:
-                    run.ob("R2", "%s: %s" % (f.qn, txt), f.site, False, witness=sorted("%s%s" % ("" if v else "!", k) for k, v in facts_at(f, f.where_enclosing(n))),
+                    run.ob("R2", "%s: %s" % (f.qn, txt), f.site, False, witness={"facts": sorted("%s%s" % ("" if v else "!", k) for k, v in facts_at(f, f.where_enclosing(n))), "origin": akey(f, n)},
                            what="unsigned subtraction without a dominating fact that excludes wrap-around; the result is used as an index, length or bound")
-    # reasons of the frozen exceptions that are themselves checkable
+    # replace(const char*, const char*): folded for every string over {a,b} up to 4 chars, 7 patterns, 4 replacements
     rp = [f for f in prog.fns(SS + "::replace") if f.params and f.params[0]["ct"] == "const char *"]
     if rp:
         rp = rp[0]
         run.analysed(rp)
-        strides = [render(rp, n) for n in rp.walk() if n["k"] in ("BinaryOperator", "CompoundAssignOperator") and "tolen" in render(rp, n) and n.get("op") in ("+", "+=")]
-        count_loop = [render(rp, f_.get("inc") and rp.node(f_["inc"])) for f_ in rp.walk() if f_["k"] == "ForStmt" and "StrStr" in render(rp, rp.node(f_.get("inc")) if f_.get("inc") is not None else f_)]
-        ok = any("StrStr((next + tolen), to)" in c or "+ tolen" in c for c in count_loop) and any(s == "(i += tolen)" for s in strides) and not any((prog.callee_name(rp, c) or "").endswith("::count") for c in rp.calls())
-        run.ob("R2", "replace counts the occurrences it replaces: the counting scan and the copy loop both advance by tolen per match", rp.site, ok, witness={"count_loop_step": count_loop, "copy_strides": strides},
-               what="" if ok else "the size is computed from a different number of occurrences than the copy loop consumes: the new buffer is too small for self-overlapping patterns")
-        z = [p for p in enumerate_paths(rp) if p.val().get("tolen") is False or p.val().get("(0 == tolen)") is True or p.val().get("(tolen == 0)") is True]
-        okz = bool(z) and all(not [c for c in path_calls(prog, rp, p) if "allocStringBuffer" in render(rp, c)] for p in z)
-        run.ob("R2", "an empty pattern is a no-op (it would match at every position without advancing)", rp.site, okz)
+
+        def fold_replace(s_, t_, w_):
+            env = {"buffer_": ("ptr", "S", 0), "bufferSize_": len(s_) + 1, rp.params[0]["name"]: ("ptr", "T", 0), rp.params[1]["name"]: ("ptr", "W", 0)}
+            for nm, st in (("S", s_), ("T", t_), ("W", w_)):
+                for i_, ch in enumerate(st + "\0"):
+                    env["%s[%d]" % (nm, i_)] = ord(ch)
+            allocs, res = [], {}
+
+            def alloc(n_, *a_):
+                allocs.append(n_)
+                return ("ptr", "N", 0)
+
+            def setbuf(p_, n_):
+                res["set"] = (p_, n_)
+                return 0
+
+            def setempty():
+                res["empty"] = True
+                return 0
+            ev = Evaluator(prog, rp, env=env, calls={SS + "::allocStringBuffer": alloc, SS + "::setInternalBufferTo": setbuf, SS + "::setInternalBufferAsEmptyString": setempty})
+            ev.inline = {g.qn for g in prog.functions.values() if g.qn.startswith(SS + "::")} - set(ev.calls)
+            ev.run_blocks(rp.entry, max_steps=8000)
+            st = [(int(k[2:-1]), v) for k, v in ev.stores if k.startswith("N[")]
+            if not allocs and not res:
+                return s_, None
+            if res.get("empty"):
+                return "", None
+            if len(allocs) != 1 or "set" not in res:
+                return None, "allocations %s, installed %s" % (allocs, res)
+            if res["set"] != (("ptr", "N", 0), allocs[0]):
+                return None, "allocated %d bytes, installed %s" % (allocs[0], (res["set"],))
+            oob = [k for k, v in st if k >= allocs[0] or k < 0]
+            if oob:
+                return None, "allocated %d bytes, writes index %d" % (allocs[0], oob[0])
+            mem = dict(st)
+            got, i_ = "", 0
+            while mem.get(i_):
+                got += chr(mem[i_])
+                i_ += 1
+            if mem.get(i_) != 0:
+                return None, "the new buffer is not NUL-terminated inside its %d bytes" % allocs[0]
+            return got, None
+        bad, ncase, unk = None, 0, None
+        for L in range(0, 5):
+            for s_ in map("".join, itertools.product("ab", repeat=L)):
+                for t_ in ("", "a", "b", "aa", "ab", "ba", "bb"):
+                    for w_ in ("", "a", "ab", "bbb"):
+                        ncase += 1
+                        try:
+                            got, err = fold_replace(s_, t_, w_)
+                        except Unknown as u:
+                            unk = unk or "replace(%r, %r) on %r: %s" % (t_, w_, s_, u)
+                            continue
+                        want = s_.replace(t_, w_) if t_ else s_
+                        if bad is None and (err or got != want):
+                            bad = {"string": s_, "to": t_, "with": w_, "folded": got, "expected": want, "error": err}
+        if unk:
+            run.broke("C13.R2: replace cannot be folded: %s" % unk)
+        run.ob("R2", "replace folded for every string over {a,b} of up to 4 chars x 7 patterns (incl. empty, self-overlapping) x 4 replacements: one allocation, every write inside it, NUL-terminated, installed with its size, content = non-overlapping left-to-right replacement; empty pattern is a no-op", rp.site, bad is None,
+               witness=bad or "%d cases" % ncase, what="" if bad is None else "replace(%r, %r) on %r: %s" % (bad["to"], bad["with"], bad["string"], bad["error"] or "gives %r, expected %r" % (bad["folded"], bad["expected"])))
 
     # ---------------- R3 ----------------------------------------------------
     gp = prog.fn(SS + "::getPrintableSize")
     pr = prog.fn(SS + "::printable")
     run.analysed(gp)
     run.analysed(pr)
-    INL = {SS + "::isControl", SS + "::isControlWithShortEscapeSequence"}
-
-    def body_of(f, var_hint):
-        loops = loop_blocks(f)
-        for b in f.blocks.values():
-            if b["id"] in loops and b.get("cond") is not None and len(b["succ"]) == 2:
-                key, pol = atom(f, f.nodes[b["cond"]])
-                if re.match(r"^\(i < \w+\)$", key):
-                    return b, (b["succ"][0] if pol else b["succ"][1])
-        return None, None
-    hg, bg = body_of(gp, "i")
-    hp_, bp = body_of(pr, "i")
-    if hg is None or hp_ is None:
-        raise AnalysisBroken("per-character loops of getPrintableSize/printable not found")
-    table = [n for n in pr.walk() if n["k"] == "DeclStmt" and any(d["name"] == "shortEscapeCodes" for d in n.get("decls", []))]
+    table = [n for n in pr.walk() if n["k"] == "DeclStmt" and any("[" in d.get("ct", "") and "char" in d.get("ct", "") for d in n.get("decls", []))]
+    tname = table[0]["decls"][0]["name"] if table else None
     text = prog.types.get(table[0]["decls"][0]["ct"], {}).get("extent") if table else None
+    if text is None:
+        raise AnalysisBroken("escape table of printable() not found")
+    INL = {g.qn for g in prog.functions.values() if g.qn.startswith(SS + "::")}
+
+    def fold_printable(chars):
+        """fold getPrintableSize() and printable() on the string `chars`: reserved size, bytes written, table subscripts"""
+        env = {"buffer_": ("ptr", "S", 0), "bufferSize_": len(chars) + 1, "result.buffer_": ("ptr", "R", 0)}
+        for i_, c_ in enumerate(list(chars) + [0]):
+            env["S[%d]" % i_] = c_
+        e1 = Evaluator(prog, gp, env=env)
+        e1.inline = INL
+        e1.run_blocks(gp.entry, max_steps=4000)
+        reserved = getattr(e1, "ret", None)
+        alloc, copies, subs = [], [], []
+        e2 = Evaluator(prog, pr, env=env, calls={SS + "::setInternalBufferToNewBuffer": lambda *a_: (alloc.append(a_[-1]), 0)[1],
+                                                   SS + "::StrNCpy": lambda d_, s_, n_: (copies.append((d_, n_)), d_ if d_ is not None else 0)[1]})
+        e2.inline = INL - set(e2.calls)
+        e2.on_subscript = lambda base, idx, n_: subs.append(idx) if base == tname else None
+        e2.run_blocks(pr.entry, max_steps=8000)
+        direct = [(int(k[2:-1]), v) for k, v in e2.stores if k.startswith("R[")]
+        return reserved, alloc, copies, direct, subs
+
+    def judge(chars):
+        reserved, alloc, copies, direct, subs = fold_printable(chars)
+        if not isinstance(reserved, int):
+            raise Unknown("getPrintableSize() folds to %s" % (reserved,))
+        if alloc != [reserved + 1]:
+            return "printable() allocates %s bytes, getPrintableSize() + 1 = %s" % (alloc, reserved + 1), reserved, None
+        written = set(k for k, v in direct)
+        for d_, n_ in copies:
+            if not (isinstance(d_, tuple) and d_[1] == "R" and isinstance(n_, int)):
+                raise Unknown("copy target %s" % (d_,))
+            written |= set(range(d_[2], d_[2] + n_))
+        top = max(written) if written else -1
+        if top >= alloc[0]:
+            return "printable() writes index %d of a %d-byte buffer (getPrintableSize() reserves %d)" % (top, alloc[0], reserved), reserved, top
+        if written != set(range(0, reserved + 1)) or (reserved, 0) not in direct:
+            return "printable() writes bytes %s and terminates at %s; getPrintableSize() reserves %d and the terminator belongs at that index" % (sorted(written), [k for k, v in direct if v == 0], reserved), reserved, top
+        bad = [i_ for i_ in subs if not (0 <= i_ < text)]
+        if bad:
+            return "escape table index %s outside [0, %s)" % (bad[0], text), reserved, top
+        return "", reserved, top
     for c in range(-128, 128):
         if c == 0:
             continue
-        e1 = Evaluator(prog, gp, env={"buffer_[0]": c, "i": 0, "str_size": 1, "printable_str_size": 0})
-        e1.inline = INL
-        e2 = Evaluator(prog, pr, env={"buffer_[0]": c, "i": 0, "str_size": 1, "j": 0})
-        e2.inline = INL
-        copies = []
-        idxs = []
-        e2.calls[SS + "::StrNCpy"] = lambda d, s, n, copies=copies: (copies.append(n), 0)[1]
         try:
-            e1.run_blocks(bg, stop_blocks={hg["id"]}, max_steps=200)
-            e2.run_blocks(bp, stop_blocks={hp_["id"]}, max_steps=200)
-            inc = e1.env.get("printable_str_size")
-            j = e2.env.get("j")
-            direct = [k for k, v in e2.stores if k.startswith("result.buffer_[")]
-            for nm, args, node in e2.trace:
-                pass
-            # table subscripts evaluated during the fold
-            sub = [n for n in pr.walk() if n["k"] == "ArraySubscriptExpr" and render(pr, pr.node(n["base"])) == "shortEscapeCodes"]
-            tix = None
-            if copies and copies[0] == 2 and sub:
-                e3 = Evaluator(prog, pr, env={"c": c})
-                tix = e3.ev(pr.node(sub[0]["idx"]))
-            why = ""
-            if j != 1 + inc:
-                why = "char %d: printable() writes %s bytes, getPrintableSize() reserves %s" % (c, j, 1 + inc)
-            elif copies and copies[0] != j:
-                why = "char %d: copy length %s differs from the index advance %s" % (c, copies[0], j)
-            elif tix is not None and text is not None and not (0 <= tix < text):
-                why = "char %d: escape table index %s outside [0, %s)" % (c, tix, text)
+            why, reserved, top = judge([c])
             ok = not why
+            why = why and "char %d: %s" % (c, why)
         except Unknown as u:
-            ok, why, inc, j = False, "cannot fold: %s" % u, None, None
-        run.ob("R3", "char value %d" % c, pr.site, ok, witness={"reserved": None if inc is None else 1 + inc, "written": j, "copies": copies}, what=why)
-    run.ob("R3", "char value 0 never occurs inside a string (loops run to size())", pr.site, True, witness="str_size = size()")
-    ini = {k: render(pr, v) for k, v in local_inits(pr).items()}
-    cs = [render(pr, c) for c in pr.calls() if "setInternalBufferToNewBuffer" in render(pr, c)]
-    run.ob("R3", "printable() allocates getPrintableSize() + 1 bytes and terminates at the write index", pr.site, cs == ["result.setInternalBufferToNewBuffer((getPrintableSize() + 1))"] and ("result.buffer_[j]", "0") in [(l, render(pr, r)) for l, r, n in assignments(pr)], witness=cs)
+            run.broke("C13.R3: printable()/getPrintableSize() cannot be folded for char %d: %s" % (c, u))
+            break
+        run.ob("R3", "char value %d" % c, pr.site, ok, witness={"reserved": reserved, "last_index_written": top}, what=why)
+    reps = [7, 13, 1, 31, 32, 65, 127, -1, -128]
+    bad2 = None
+    for c1 in reps:
+        for c2 in reps:
+            try:
+                why, reserved, top = judge([c1, c2])
+            except Unknown as u:
+                run.broke("C13.R3: cannot fold the two-char string (%d, %d): %s" % (c1, c2, u))
+                why = ""
+            if why and bad2 is None:
+                bad2 = "chars (%d, %d): %s" % (c1, c2, why)
+    run.ob("R3", "two-char strings over one representative of every class (%d pairs): the write index accumulates like the reserved size" % (len(reps) ** 2), pr.site, bad2 is None, witness=bad2 or reps, what=bad2 or "")
+    try:
+        why, reserved, top = judge([])
+    except Unknown as u:
+        why = "cannot fold: %s" % u
+    run.ob("R3", "the empty string: one byte reserved, terminator at index 0", pr.site, not why, what=why)
 
     # ---------------- R4 ----------------------------------------------------
     cb = prog.fn(SS + "::copyToBuffer")
@@ -289,111 +456,230 @@ def check(ctx, run):
             if (prog.callee_name(f, c) or "") == SS + "::copyToNewBuffer":
                 a = f.args(c)[1]
                 r = render(f, a)
-                ini = {k: render(f, v) for k, v in local_inits(f).items()}
-                src = ini.get(r, r)
-                # bufferSize_ of a live string is >= 1 by R1; otherwise the expression must add 1
-                chain = [src] + [ini.get(t, "") for t in re.findall(r"\w+", src)]
-                ok = any("+ 1)" in s_ for s_ in chain) or r == "bufferSize_"
-                run.ob("R4", "%s calls copyToNewBuffer with a size >= 1 (%s)" % (f.qn, r), f.site, ok, witness=chain[:3],
+                src = rx(f, a)
+                # bufferSize_ of a live string is >= 1 by R1; otherwise the origin of the expression must add 1
+                o = f.strip(a)
+                ok = bool(re.search(r"\+ 1\)|\(1 \+ ", src)) or (o is not None and o["k"] == "MemberExpr" and o.get("name") == "bufferSize_")
+                run.ob("R4", "%s calls copyToNewBuffer with a size >= 1 (%s)" % (f.qn, r), f.site, ok, witness=src,
                        what="" if ok else "copyToNewBuffer writes the terminator at bufferSize-1: a size of 0 writes before the buffer")
     for f in prog.functions.values():
         if f.cls == SS and f.name == "copyBufferToNewInternalBuffer" and len(f.params) == 1:
-            cs = [render(f, c) for c in f.calls() if "copyBufferToNewInternalBuffer(" in render(f, c)]
-            ok = len(cs) == 1 and "+ 1)" in cs[0]
+            cs = [rx(f, c) for c in f.calls() if (prog.callee_name(f, c) or "") == SS + "::copyBufferToNewInternalBuffer" and len(f.args(c)) == 2]
+            ok = len(cs) == 1 and bool(re.search(r"\+ 1\)|\(1 \+ ", cs[0]))
             run.ob("R4", "copyBufferToNewInternalBuffer(%s) sizes the copy as length + 1" % f.params[0]["ct"], f.site, ok, witness=cs)
     sub = [f for f in prog.fns(SS + "::subString") if len(f.params) == 2][0]
     run.analysed(sub)
+    bpos = sub.params[0]["name"]
+    objs = [d for n in sub.walk() if n["k"] == "DeclStmt" for d in n.get("decls", []) if d.get("ct", "").replace("const ", "") == SS and d.get("init") is not None]
+    ntrunc = 0
     for l, r, n in assignments(sub):
-        if l.startswith("newString.buffer_["):
-            facts = facts_at(sub, sub.where_enclosing(n))
-            idx = l[len("newString.buffer_["):-1]
-            ok = ("(%s < newString.size())" % idx, True) in facts
+        m = re.match(r"^(\w+)\.buffer_\[(.+)\]$", l)
+        if m:
+            ntrunc += 1
+            facts = facts_at(sub, sub.where_enclosing(n), subst=True)
+            idx = rx(sub, sub.node(sub.node(n["lhs"])["idx"])) if sub.node(n["lhs"]).get("idx") is not None else m.group(2)
+            ok = ("(%s < %s.size())" % (idx, m.group(1)), True) in facts
             run.ob("R4", "subString truncates at an index below the new string's size", sub.site, ok, witness=sorted("%s%s" % ("" if v else "!", k) for k, v in facts))
-    okb = False
-    for p in enumerate_paths(sub):
-        v = p.val()
-        if v.get("(beginPos < size())") is False:
-            okb = render(sub, sub.node(p.ret.get("value")), keep_explicit_casts=False) in ('SimpleString("")', '""') if p.ret is not None else False
+    if not ntrunc:
+        run.broke("C13.R4: the truncating store of subString was not found")
     facts_new = None
     for n in sub.walk():
-        if n["k"] == "DeclStmt" and any(d["name"] == "newString" for d in n.get("decls", [])):
-            facts_new = facts_at(sub, sub.where_enclosing(n))
-    run.ob("R4", "subString builds from buffer + beginPos only when beginPos < size()", sub.site, facts_new is not None and ("(beginPos < size())", True) in facts_new, witness=sorted("%s%s" % ("" if v else "!", k) for k, v in (facts_new or [])),
-           what="" if facts_new is not None and ("(beginPos < size())", True) in facts_new else "a start position at or beyond the end reads outside the buffer (an empty string has size 0)")
+        if n["k"] == "DeclStmt" and any(d in objs for d in n.get("decls", [])) and bpos in render(sub, n["decls"][0]["init"]):
+            facts_new = facts_at(sub, sub.where_enclosing(n), subst=True)
+    okn = facts_new is not None and ("(%s < size())" % bpos, True) in facts_new
+    run.ob("R4", "subString builds from buffer + beginPos only when beginPos < size()", sub.site, okn, witness=sorted("%s%s" % ("" if v else "!", k) for k, v in (facts_new or [])),
+           what="" if okn else "a start position at or beyond the end reads outside the buffer (an empty string has size 0)")
 
     # ---------------- R5 ----------------------------------------------------
-    PRIMS = {"StrCmp": ["s1"], "StrNCmp": ["s1"], "StrLen": ["str"], "StrStr": ["s1"], "StrNCpy": ["s1"], "AtoI": ["str"], "AtoU": ["str"]}
-    INL5 = {SS + "::isSpace", SS + "::isDigit"}
-    for name, ptrs in PRIMS.items():
+    INL5 = {g.qn for g in prog.functions.values() if g.qn.startswith(SS + "::")}
+    HI = -23    # a char with the top bit set (0xE9): comparisons must be unsigned
+    ALPHA = (97, 98, HI)
+
+    def strings(maxlen, alpha=ALPHA):
+        for L in range(maxlen + 1):
+            for t in itertools.product(alpha, repeat=L):
+                yield list(t)
+
+    def put(env, base, vals):
+        """a NUL-terminated string at `base`; bytes behind the terminator are absent: reading them cannot be folded"""
+        for i_, v_ in enumerate(list(vals) + [0]):
+            env["%s[%d]" % (base, i_)] = v_
+
+    def sgn(x):
+        return (x > 0) - (x < 0)
+
+    def ub(v):
+        return v & 0xFF
+
+    def fold_prim(f, env, max_steps=3000):
+        ev = Evaluator(prog, f, env=env)
+        ev.inline = INL5
+        ev.run_blocks(f.entry, max_steps=max_steps)
+        r = getattr(ev, "ret", None)
+        if isinstance(r, tuple) and r and r[0] == "unknown":
+            raise Unknown(r[1])
+        return r, ev
+
+    def prim_rule(name, cases, text):
+        """cases: iterable of (description, env, oracle(ret, ev) -> '' or complaint)"""
         f = prog.fn(SS + "::" + name)
         run.analysed(f)
-        for i, lp in enumerate(loops_of(f)):
-            cond = f.node(lp.get("cond"))
-            if cond is None:
-                run.ob("R5", "%s loop #%d has a condition" % (name, i + 1), f.site, False, what="unbounded loop")
-                continue
-            okl = False
-            why = ""
-            for ptr in ptrs:
-                env = {"*" + ptr: 0, "*" + ptr + "++": 0, "*s2": 65, "n": 5, ptr: 1000, "s2": 2000}
-                ev = Evaluator(prog, f, env=env)
-                ev.inline = INL5
-                try:
-                    v = ev.ev(cond)
-                    if not v:
-                        okl = True
-                except Unknown as u:
-                    why = str(u)
-            run.ob("R5", "%s loop #%d stops when the scanned pointer reaches NUL" % (name, i + 1), f.site, okl, witness=render(f, cond), what="" if okl else "condition stays true at NUL (%s)" % why)
+        bad, ncase = None, 0
+        for desc, env, oracle in cases(f):
+            ncase += 1
+            try:
+                r, ev = fold_prim(f, env)
+                why = oracle(r, ev)
+            except Unknown as u:
+                oob = re.search(r"(?:^|[ :])([A-Z]\[-?\d+\])$", str(u))
+                if oob:
+                    why = "reads %s, outside the string (behind its terminator or before its start)" % oob.group(1)
+                else:
+                    run.broke("C13.R5: %s cannot be folded for %s: %s" % (name, desc, u))
+                    return
+            if why and bad is None:
+                bad = "%s(%s): %s" % (name, desc, why)
+        run.ob("R5", "%s folded on %d cases: %s" % (name, ncase, text), f.site, bad is None, witness=bad or "%d cases" % ncase, what=bad or "")
+
+    def show(v):
+        return "".join(chr(ub(c)) if 32 <= ub(c) < 127 else "\\x%02X" % ub(c) for c in v)
+
+    def cmp_cases(f):
+        for a_ in strings(2):
+            for b_ in strings(2):
+                env = {f.params[0]["name"]: ("ptr", "A", 0), f.params[1]["name"]: ("ptr", "B", 0)}
+                put(env, "A", a_)
+                put(env, "B", b_)
+                want = sgn(([ub(x) for x in a_] > [ub(x) for x in b_]) - ([ub(x) for x in a_] < [ub(x) for x in b_]))
+                yield '"%s", "%s"' % (show(a_), show(b_)), env, (lambda r, ev, want=want: "" if isinstance(r, int) and sgn(r) == want else "folds to %s, expected sign %d" % (r, want))
+    prim_rule("StrCmp", cmp_cases, "reads stop at the first NUL, sign = comparison of the first differing bytes as unsigned char")
+
+    def ncmp_cases(f):
+        for a_ in strings(2):
+            for b_ in strings(2):
+                for n_ in (0, 1, 2, 3):
+                    env = {f.params[0]["name"]: ("ptr", "A", 0), f.params[1]["name"]: ("ptr", "B", 0), f.params[2]["name"]: n_}
+                    put(env, "A", a_)
+                    put(env, "B", b_)
+                    ua, ub_ = [ub(x) for x in a_][:n_], [ub(x) for x in b_][:n_]
+                    want = (ua > ub_) - (ua < ub_)
+                    yield '"%s", "%s", %d' % (show(a_), show(b_), n_), env, (lambda r, ev, want=want: "" if isinstance(r, int) and sgn(r) == want else "folds to %s, expected sign %d" % (r, want))
+    prim_rule("StrNCmp", ncmp_cases, "at most n bytes compared, reads stop at the first NUL")
+
+    def len_cases(f):
+        for a_ in strings(3, (97, HI)):
+            env = {f.params[0]["name"]: ("ptr", "A", 0)}
+            put(env, "A", a_)
+            yield '"%s"' % show(a_), env, (lambda r, ev, L=len(a_): "" if r == L else "folds to %s, expected %d" % (r, L))
+    prim_rule("StrLen", len_cases, "counts up to the first NUL and reads nothing behind it")
+
+    def str_cases(f):
+        for a_ in strings(3, (97, 98)):
+            for b_ in strings(2, (97, 98)):
+                env = {f.params[0]["name"]: ("ptr", "A", 0), f.params[1]["name"]: ("ptr", "B", 0)}
+                put(env, "A", a_)
+                put(env, "B", b_)
+                pos = "".join(map(chr, a_)).find("".join(map(chr, b_)))
+                want = 0 if pos < 0 else ("ptr", "A", pos)
+                yield '"%s", "%s"' % (show(a_), show(b_)), env, (lambda r, ev, want=want: "" if r == want else "folds to %s, expected %s" % (r, want))
+    prim_rule("StrStr", str_cases, "first occurrence or NULL; reads inside both strings only")
+
+    def cpy_cases(f):
+        for b_ in strings(3, (97, HI)):
+            for n_ in (0, 1, 2, 3, 4, 6):
+                env = {f.params[0]["name"]: ("ptr", "D", 0), f.params[1]["name"]: ("ptr", "B", 0), f.params[2]["name"]: n_}
+                put(env, "B", b_)
+
+                def oracle(r, ev, b_=b_, n_=n_):
+                    st = [(int(k[2:-1]), v) for k, v in ev.stores if k.startswith("D[")]
+                    k_ = min(n_, len(b_) + 1)
+                    if any(i_ >= n_ or i_ < 0 for i_, v in st):
+                        return "writes index %s with n = %d" % ([i_ for i_, v in st if i_ >= n_ or i_ < 0][0], n_)
+                    mem = dict(st)
+                    want = (list(b_) + [0])[:k_]
+                    if [mem.get(i_) for i_ in range(k_)] != want:
+                        return "copies %s, expected %s" % ([mem.get(i_) for i_ in range(k_)], want)
+                    if r != ("ptr", "D", 0):
+                        return "returns %s" % (r,)
+                    return ""
+                yield 'dst, "%s", %d' % (show(b_), n_), env, oracle
+        env = {f.params[0]["name"]: 0, f.params[1]["name"]: ("ptr", "B", 0), f.params[2]["name"]: 3}
+        put(env, "B", [97])
+        yield "NULL, \"a\", 3", env, (lambda r, ev: "" if not [k for k, v in ev.stores if "[" in k] and r == 0 else "writes through the NULL destination")
+    prim_rule("StrNCpy", cpy_cases, "writes only [0, n), copies up to and including the NUL or n bytes, reads nothing behind the source's NUL, NULL destination untouched")
+
+    def ato_cases(signed):
+        def gen(f):
+            texts = ["", "0", "7", "12", "120", " 12", "\t\n 9", "12x", "x", "1 2", "-", "+", "-12", "+5", " -3x", "--1", "-0", "4294967295" if not signed else "2147483647", "\xE9" + "1"]
+            for t in texts:
+                vals = [ord(ch) - 256 if ord(ch) > 127 else ord(ch) for ch in t]
+                env = {f.params[0]["name"]: ("ptr", "A", 0)}
+                put(env, "A", vals)
+                i_ = 0
+                while i_ < len(t) and t[i_] in " \t\n\v\f\r":
+                    i_ += 1
+                neg = False
+                if signed and i_ < len(t) and t[i_] in "+-":
+                    neg = t[i_] == "-"
+                    i_ += 1
+                v = 0
+                while i_ < len(t) and t[i_] in "0123456789":
+                    v = v * 10 + int(t[i_])
+                    i_ += 1
+                want = -v if neg else v
+                yield repr(t), env, (lambda r, ev, want=want: "" if r == want else "folds to %s, expected %s" % (r, want))
+        return gen
+    prim_rule("AtoI", ato_cases(True), "leading white space, one optional sign, decimal digits up to the first other char; reads stop there")
+    prim_rule("AtoU", ato_cases(False), "leading white space, decimal digits up to the first other char; reads stop there")
+
     mc = prog.fn(SS + "::MemCmp")
     run.analysed(mc)
-    conds = [render(mc, mc.node(lp.get("cond"))) for lp in loops_of(mc)]
-    run.ob("R5", "MemCmp is bounded by n", mc.site, conds == ["n--"], witness=conds)
-    ff = prog.fn(SS + "::findFrom")
-    run.analysed(ff)
-    ini = {k: render(ff, v) for k, v in local_inits(ff).items()}
-    lps = loops_of(ff)
-    ok = len(lps) == 1
-    w = {"init": ini}
-    if ok:
-        c = render(ff, ff.node(lps[0].get("cond")))
-        m = re.match(r"^\((\w+) < (\w+)\)$", c)
-        inc = render(ff, ff.node(lps[0].get("inc"))) if lps[0].get("inc") is not None else ""
-        w.update({"cond": c, "inc": inc})
-        ok = bool(m) and ini.get(m.group(2)) == "size()" and ini.get(m.group(1)) == ff.params[0]["name"] and inc in ("%s++" % m.group(1), "++%s" % m.group(1))
-        rets = [render(ff, ff.node(n.get("value"))) for n in ff.walk() if n["k"] == "ReturnStmt"]
-        ok = ok and sorted(rets) == sorted([m.group(1), "npos"]) if m else False
-    run.ob("R5", "findFrom scans [starting_position, size()) upwards and returns an index in that range or npos", ff.site, ok, witness=w,
-           what="" if ok else "a start position beyond the end scans past the terminating NUL")
+    bad = None
+    ncase = 0
+    for n_ in (0, 1, 2):
+        for a_ in itertools.product((0, 1, 255), repeat=n_):
+            for b_ in itertools.product((0, 1, 255), repeat=n_):
+                env = {mc.params[0]["name"]: ("ptr", "A", 0), mc.params[1]["name"]: ("ptr", "B", 0), mc.params[2]["name"]: n_}
+                for i_, v_ in enumerate(a_):
+                    env["A[%d]" % i_] = v_
+                for i_, v_ in enumerate(b_):
+                    env["B[%d]" % i_] = v_      # bytes at index >= n are absent: reading them cannot be folded
+                ev = Evaluator(prog, mc, env=env)
+                ncase += 1
+                try:
+                    ev.run_blocks(mc.entry, max_steps=300)
+                    got = getattr(ev, "ret", None)
+                except Unknown as u:
+                    got = "unknown: %s" % u
+                want = 0 if a_ == b_ else (-1 if a_ < b_ else 1)
+                sign = (0 if got == 0 else (1 if isinstance(got, int) and got > 0 else (-1 if isinstance(got, int) else None)))
+                if sign != want and bad is None:
+                    bad = {"a": a_, "b": b_, "n": n_, "folded": got}
+    run.ob("R5", "MemCmp folded on all blocks of 0..2 bytes over {0,1,255}: reads only the first n bytes, sign = first differing unsigned byte", mc.site, bad is None, witness=bad or "%d cases" % ncase,
+           what="" if bad is None else "MemCmp(%s, %s, %d) folds to %s" % (bad["a"], bad["b"], bad["n"], bad["folded"]))
+    def find_cases(f):
+        for a_ in strings(3, (97, 98)):
+            for st_ in range(0, len(a_) + 3):
+                for ch in (97, 98):
+                    env = {"buffer_": ("ptr", "S", 0), "bufferSize_": len(a_) + 1, f.params[0]["name"]: st_, f.params[1]["name"]: ch}
+                    put(env, "S", a_)
+                    hits = [i_ for i_ in range(st_, len(a_)) if a_[i_] == ch]
+                    want = hits[0] if hits else SIZE_MAX
+                    yield '"%s".findFrom(%d, %s)' % (show(a_), st_, chr(ch)), env, (lambda r, ev, want=want: "" if r == want else "folds to %s, expected %s" % (r, "npos" if want == SIZE_MAX else want))
+        for big in (SIZE_MAX, SIZE_MAX - 1, 1 << 63):
+            env = {"buffer_": ("ptr", "S", 0), "bufferSize_": 2, f.params[0]["name"]: big, f.params[1]["name"]: 97}
+            put(env, "S", [97])
+            yield '"a".findFrom(%d, a)' % big, env, (lambda r, ev: "" if r == SIZE_MAX else "folds to %s, expected npos" % (r,))
+    prim_rule("findFrom", find_cases, "scans [starting_position, size()) upwards, returns the first index holding the char or npos; a start beyond the end reads nothing")
 
     # ---------------- R6 ----------------------------------------------------
-    vs = [c for c in vf.calls() if (prog.callee_name(vf, c) or "") == "PlatformSpecificVSNprintf"]
-    ok = len(vs) == 2
-    w = [render(vf, c) for c in vs]
-    if ok:
-        a0 = vf.args(vs[0])
-        ext = prog.types.get(a0[0].get("ct", ""), {})
-        # the first argument decays from the local array: find its declaration extent
-        decl = [d for n in vf.walk() if n["k"] == "DeclStmt" for d in n.get("decls", []) if d["name"] == render(vf, a0[0])]
-        extent = prog.types.get(decl[0]["ct"], {}).get("extent") if decl else None
-        passed = const_value(vf, a0[1])
-        cmpc = None
-        for b in vf.blocks.values():
-            if b.get("cond") is not None:
-                cn = vf.strip(vf.nodes[b["cond"]], casts=False)
-                if cn is not None and cn["k"] == "BinaryOperator" and cn.get("op") == "<" and render(vf, vf.node(cn["lhs"])) == "size":
-                    cmpc = const_value(vf, vf.node(cn["rhs"]))
-        ok = extent is not None and extent == passed == cmpc
-        w = {"extent": extent, "passed_to_vsnprintf": passed, "compared_with": cmpc}
-    run.ob("R6", "fast path: buffer extent = size passed to vsnprintf = constant the result is compared with", vf.site, ok, witness=w,
-           what="" if ok else "a result that does not fit the stack buffer would be taken as complete (truncated text)")
-    if len(vs) == 2:
-        a1 = [render(vf, x) for x in vf.args(vs[1])]
-        ini = {k: render(vf, v) for k, v in local_inits(vf).items()}
-        ok = a1[1] == "newBufferSize" and ini.get("newBufferSize") == "(size + 1)" and ini.get(a1[0], "").replace("SimpleString::", "").startswith("allocStringBuffer(newBufferSize,")
-        run.ob("R6", "slow path: one size variable (result length + 1) for allocation and vsnprintf", vf.site, ok, witness={"vsnprintf": a1, "init": {k: v for k, v in ini.items() if "uffer" in k}})
-    ini = {k: render(vf, v, keep_explicit_casts=False) for k, v in local_inits(vf).items()}
-    run.ob("R6", "the length that selects the path is the first vsnprintf's result", vf.site, ini.get("size", "").startswith("PlatformSpecificVSNprintf(defaultBuffer,"), witness=ini.get("size"))
+    run.ob("R6", "fast path folded: a vsnprintf result below the stack buffer's extent uses that buffer (bounded by its extent) and nothing else", vf.site, fmt_bad is None or "fits" not in fmt_bad,
+           witness={"extent": extent, "results": [r_ for r_ in fmt_cases if extent is not None and r_ < extent]} if fmt_bad is None or "fits" not in fmt_bad else fmt_bad,
+           what="" if fmt_bad is None or "fits" not in fmt_bad else fmt_bad)
+    run.ob("R6", "slow path folded: a result >= the extent allocates result+1 bytes and formats again into them with that bound", vf.site, fmt_bad is None or "does not fit" not in fmt_bad,
+           witness={"extent": extent, "results": [r_ for r_ in fmt_cases if extent is not None and r_ >= extent]} if fmt_bad is None or "does not fit" not in fmt_bad else fmt_bad,
+           what="" if fmt_bad is None or "does not fit" not in fmt_bad else "a result that does not fit the stack buffer would be taken as complete (truncated text): " + fmt_bad)
+    run.ob("R6", "the boundary is exact: results extent-1 / extent take the fast / slow path", vf.site, extent is not None and {extent - 1, extent} <= set(fmt_cases) and fmt_bad is None, witness={"extent": extent})
 
     # ---------------- R7 ----------------------------------------------------
     char_classifiers(prog, run, "R7")
